@@ -72,8 +72,27 @@ CrashPath(seq, k) == SubSeq(seq, 1, k - 1)
 \*   re-scheduled (sync_repo, sync_parent, update_rrdp all answer a failure
 \*   with TaskResult::Reschedule).
 FinishStart(seq) ==
-    \* first mutation of the finish phase: the FIN of the claimed task
-    IF Has(seq, "FIN") THEN LastIdx(seq, "FIN") ELSE Len(seq) + 1
+    \* first mutation of the finish phase: the scheduler's finish /
+    \* re-schedule / follow-up call works on the queue entries of the claimed
+    \* task only, and nothing follows it (a queue operation on the task's own
+    \* name in the middle of the body is a post-save signal, mq.rs)
+    LET own(i) == /\ seq[i].t \in {"FIN", "QDEL", "QADD", "QRESCHED"}
+                  /\ seq[i].e = seq[1].e
+        S == {i \in 2..Len(seq) : \A j \in i..Len(seq) : own(j)}
+    IN IF S = {} THEN Len(seq) + 1 ELSE Min(S)
+
+\* failures that are logged and ignored: status writes, clean-up removals,
+\* queue operations on the task's own name in the middle of the body
+Swallowed(op, k) ==
+    LET seq == op.seq IN
+    \* (the synchronisation with the parent reports a failing status write
+    \* as a failure of the exchange)
+    \/ seq[k].t = "CLEAN"
+    \/ seq[k].t = "STATUS" /\ op.cls # "sync_parent"
+    \/ /\ seq[k].t \in {"FIN", "QDEL", "QADD"} /\ seq[k].e = seq[1].e
+       /\ k < FinishStart(seq)
+       /\ \E i \in 2..k : seq[i].t = "FIN" /\ seq[i].e = seq[1].e
+           /\ \A j \in i..k : seq[j].t \in {"FIN", "QDEL", "QADD"}
 
 \* indices of op.seq that take effect, and whether the task is moved back
 \* to pending afterwards (a mutation that is not part of the fault-free run)
@@ -90,13 +109,24 @@ ErrIdx(op, k) ==
                   ELSE all \ {k}
         ELSE IF k = 1 THEN {}
              ELSE IF k >= FinishStart(seq) THEN 1..(k - 1)
-             ELSE IF seq[k].t \in {"STATUS", "CLEAN"}
+             ELSE IF Swallowed(op, k)
                   THEN all \ {k}
                   ELSE 1..(k - 1)
 
+\* the body ends with an error and the scheduler moves the task back to
+\* pending ...
+BodyAbort(op, k) ==
+    /\ op.task /\ k > 1 /\ k < FinishStart(op.seq) /\ ~Swallowed(op, k)
+\* ... unless a post-save signal of the body has already replaced the
+\* running entry of this very task by a new pending one
+\* (schedule_and_finish_existing for the child's synchronisation, mq.rs):
+\* then nothing is left to re-schedule (queue.rs reschedule_running_task;
+\* before commit ac959d8f the scheduler exited here).
+OwnFinBefore(seq, k) ==
+    \E i \in 2..(k - 1) : seq[i].t = "FIN" /\ seq[i].e = seq[1].e
+
 Rescheduled(op, k, mode) ==
-    /\ mode = "error" /\ op.task /\ k > 1 /\ k < FinishStart(op.seq)
-    /\ op.seq[k].t \notin {"STATUS", "CLEAN"}
+    mode = "error" /\ BodyAbort(op, k) /\ ~OwnFinBefore(op.seq, k)
 
 ExecIdx(op, k, mode) ==
     IF mode = "crash" THEN 1..(k - 1) ELSE ErrIdx(op, k)
